@@ -59,6 +59,7 @@ def alphabet_for(thorough):
             A.append(dict(op='put_att', v=v, name='ab', xtype=D.NC_DOUBLE, vals=[]))          # zero length
             if thorough: A.append(dict(op='put_att', v=v, name='a', xtype=D.NC_INT, vals=[1, 2, 3, 4, 5]))   # larger
             A.append(dict(op='put_att', v=v, name=E_DECOMPOSED, xtype=D.NC_INT, vals=[9]))
+            A.append(dict(op='put_att', v=v, name='a', xtype=D.NC_BYTE, vals=[1, -127], emit_vals=[1, 300], mem='int', erange=True))   # NC_ERANGE: completed, fill stored
             for n in ['a', 'ab', E_DECOMPOSED]: A.append(dict(op='del_att', v=v, name=n))
             for (n, nn) in [('a', 'b'), ('a', 'ab'), ('ab', 'a'), ('a', 'a'), ('ab', 'zzz'), (E_DECOMPOSED, 'c')]:
                 A.append(dict(op='rename_att', v=v, name=n, newname=nn))
@@ -77,7 +78,7 @@ def alphabet_for(thorough):
 def extra_judge(node, o, r, lines, newm, rc):
     """a metadata change made in data mode is in the file as soon as the call returns; same content after close+open"""
     hl, s0, b0, lo, s1, b1 = lines
-    if rc != 0: return None
+    if rc != 0 and not (rc == D.NC_ERANGE and o.get('erange')): return None
     datamode_change = node.model.mode == COLL and o['op'] in ('put_att', 'rename_att', 'rename_dim', 'rename_var', 'copy_att')
     if not (datamode_change or o['op'] in ('reopen', 'enddef')): return None
     snap = r.r(0, b1)
